@@ -232,14 +232,14 @@ def check_variants(case):
                         f"cell {i}: norm {nf.array[i]!r} but the Euclidean length of {vec[i]} is {lens[i]!r}")
     require(np.array_equal(f.array, vec), "getter-changed-values")
     nz = lens > 0
-    if dt in ("complex", "float32"):
-        o = f.orientation
-        ol = np.sqrt(np.sum(np.abs(o.array) ** 2, axis=-1))
-        if (nz.any() and np.any(np.abs(ol[nz] - 1) > 1e-6)) or np.any(o.array[~nz] != 0):
-            raise Violation("orientation-not-unit-" + dt)
-        rec = (o * nf).array
-        if not np.allclose(rec, vec, rtol=1e-6 if dt == "float32" else 1e-12, atol=0):
-            raise Violation("orientation-times-norm-" + dt)
+    # orientation of any stored dtype (integer components included: the unit vectors are not integers)
+    o = f.orientation
+    ol = np.sqrt(np.sum(np.abs(o.array) ** 2, axis=-1))
+    if (nz.any() and np.any(np.abs(ol[nz] - 1) > 1e-6)) or np.any(o.array[~nz] != 0):
+        raise Violation("orientation-not-unit-" + dt)
+    rec = (o * nf).array
+    if not np.allclose(rec, vec, rtol=1e-6 if dt == "float32" else 1e-12, atol=0):
+        raise Violation("orientation-times-norm-" + dt)
     if dt == "complex":
         f.norm = 2.5
         got = np.sqrt(np.sum(np.abs(f.array) ** 2, axis=-1))
